@@ -303,3 +303,6 @@ func (c *Chain) DirectSig(msg sdk.Msg) (err error, pi *PanicInfo) {
 	c.Txs++
 	return
 }
+
+// Catch runs f and converts a panic into a PanicInfo (simulated process deaths propagate).
+func Catch(where string, f func()) *PanicInfo { return catch(where, f) }
